@@ -12,6 +12,14 @@ CHECKS = {
          'rationals), sqrt/cos/sin encodings (fresh variables with defining polynomial constraints).',
     design='3/C17', technique=SYMX + '; let-abstraction of proven sub-results'),
 }
+CHECKS['C19'] = dict(
+    text='Real Residue.distance_to executed on symbolic points/residues and symbolic boxes (any positive orthorhombic edges; lower-triangular '
+         'triclinic with free entries; symbolic integer lattice shifts).  Decomposed SMT obligations: returned vector = (f - rint f).B with '
+         'f.B = separation; per-axis minimum-image lemma over all integers; symmetry; lattice-shift invariance; inverse-flag agreement.  '
+         'Holds for all reals/integers within the stated box shapes; rounding is outside the claim.',
+    note='Trusted: z3; adjugate/determinant stand-in for np.linalg.inv; np.round modelled as nearest integer with either choice on exact ties '
+         '(obligations that need a definite rounding assume no tie, as the property does).',
+    design='3/C19', technique=SYMX + '; mixed Int/Real queries split by let-abstraction')
 NOT_YET = {}
 def main():
     props = [json.loads(l) for l in open(os.path.join(HERE, 'properties.jsonl'))]
